@@ -124,6 +124,8 @@ func unionStates(dst lexStateSet, src lexStateSet) {
 // lexSummary: states at the returns of a helper, split by the constant boolean it returns.
 type lexSummary struct {
 	onTrue, onFalse, other lexStateSet
+	// byConst: states at returns of an integer constant (an "action" enumeration), keyed by the constant
+	byConst map[string]lexStateSet
 }
 
 type lexAnalysis struct {
@@ -164,7 +166,7 @@ func (la *lexAnalysis) run(fn *ssa.Function, entry lexStateSet, argDesc []string
 	if s, ok := la.memo[mk]; ok {
 		return s
 	}
-	sum := &lexSummary{onTrue: lexStateSet{}, onFalse: lexStateSet{}, other: lexStateSet{}}
+	sum := &lexSummary{onTrue: lexStateSet{}, onFalse: lexStateSet{}, other: lexStateSet{}, byConst: map[string]lexStateSet{}}
 	la.memo[mk] = sum // recursion guard: a recursive call sees the (growing) summary
 	if la.depth > 5 {
 		unionStates(sum.other, entry)
@@ -194,6 +196,16 @@ func (la *lexAnalysis) run(fn *ssa.Function, entry lexStateSet, argDesc []string
 			for _, e := range phi.Edges {
 				if cst, ok := e.(*ssa.Const); ok && cst.Value != nil {
 					flagPhis[phi] = true
+				}
+			}
+		}
+		// x == const / x != const with x a phi (an action code merged from several branches)
+		if bo, ok := cond.(*ssa.BinOp); ok && (bo.Op == token.EQL || bo.Op == token.NEQ) {
+			for _, pair := range [][2]ssa.Value{{bo.X, bo.Y}, {bo.Y, bo.X}} {
+				if cst, isC := pair[1].(*ssa.Const); isC && cst.Value != nil {
+					if phi, isPhi := pair[0].(*ssa.Phi); isPhi {
+						flagPhis[phi] = true
+					}
 				}
 			}
 		}
@@ -240,8 +252,8 @@ func (la *lexAnalysis) run(fn *ssa.Function, entry lexStateSet, argDesc []string
 				e := phi.Edges[k]
 				if cst, ok := e.(*ssa.Const); ok && cst.Value != nil {
 					m[phi.Name()] = cst.Value.String()
-				} else if src, ok := e.(*ssa.Phi); ok && m[src.Name()] != "" {
-					m[phi.Name()] = m[src.Name()]
+				} else if m[e.Name()] != "" {
+					m[phi.Name()] = m[e.Name()]
 				} else {
 					delete(m, phi.Name())
 				}
@@ -279,6 +291,26 @@ func (la *lexAnalysis) run(fn *ssa.Function, entry lexStateSet, argDesc []string
 					}
 				}
 			}
+			if bo, ok := cond.(*ssa.BinOp); ok && (bo.Op == token.EQL || bo.Op == token.NEQ) {
+				for _, pair := range [][2]ssa.Value{{bo.X, bo.Y}, {bo.Y, bo.X}} {
+					cst, isC := pair[1].(*ssa.Const)
+					if !isC || cst.Value == nil {
+						continue
+					}
+					if v := parseTag(curTag)[pair[0].Name()]; v != "" {
+						val := v == cst.Value.String()
+						if bo.Op == token.NEQ {
+							val = !val
+						}
+						if neg {
+							val = !val
+						}
+						if (dst == curBlock.Succs[0]) != val {
+							return
+						}
+					}
+				}
+			}
 		}
 		tag := edgeTag(curTag, curBlock, dst)
 		cur := in[dst]
@@ -300,6 +332,7 @@ func (la *lexAnalysis) run(fn *ssa.Function, entry lexStateSet, argDesc []string
 	}
 	origins := map[ssa.Value]string{}         // match-like call value -> origin description
 	helperSums := map[ssa.Value]*lexSummary{} // helper call value -> summary
+	enumSums := map[ssa.Value]*lexSummary{}   // helper call value -> summary split by the integer constant returned
 	type job struct {
 		b   *ssa.BasicBlock
 		tag string
@@ -335,6 +368,7 @@ func (la *lexAnalysis) run(fn *ssa.Function, entry lexStateSet, argDesc []string
 		curBlock, curTag = b, jb.tag
 		st := lexStateSet{}
 		unionStates(st, jb.st)
+		var lastEnum ssa.Value
 		for _, ins := range b.Instrs {
 			call, ok := ins.(ssa.CallInstruction)
 			if !ok {
@@ -419,6 +453,16 @@ func (la *lexAnalysis) run(fn *ssa.Function, entry lexStateSet, argDesc []string
 					}
 				} else {
 					st = all
+					if v != nil && len(hs.byConst) > 0 {
+						enumSums[v] = hs
+						lastEnum = v
+					}
+				}
+			}
+			if name != nil && !(la.isHelper(name) && lastEnum != nil && ins == ssa.Instruction(lastEnum.(ssa.Instruction))) {
+				// another lexer primitive after the enumeration-returning helper: its split is no longer exact
+				if name == cfg.Peek || name == cfg.Read || name == cfg.Unread || contains(cfg.MatchLike, name) || la.isHelper(name) {
+					lastEnum = nil
 				}
 			}
 		}
@@ -458,6 +502,27 @@ func (la *lexAnalysis) run(fn *ssa.Function, entry lexStateSet, argDesc []string
 			}
 			bucket := sum.other
 			if len(ret.Results) >= 1 {
+				if cst, ok := ret.Results[0].(*ssa.Const); ok && cst.Value != nil && !isBoolType(cst.Type()) {
+					if bt, isB := cst.Type().Underlying().(*types.Basic); isB && bt.Info()&types.IsInteger != 0 {
+						k := cst.Value.String()
+						if sum.byConst[k] == nil {
+							sum.byConst[k] = lexStateSet{}
+						}
+						unionStates(sum.byConst[k], out)
+						continue
+					}
+				}
+				if hs, ok := enumSums[ret.Results[0]]; ok && lastEnum == ret.Results[0] {
+					// the action code of a helper handed on: keep its split
+					for k, sts := range hs.byConst {
+						if sum.byConst[k] == nil {
+							sum.byConst[k] = lexStateSet{}
+						}
+						unionStates(sum.byConst[k], sts)
+					}
+					unionStates(sum.other, hs.other)
+					continue
+				}
 				if cst, ok := ret.Results[0].(*ssa.Const); ok && cst.Value != nil && isBoolType(cst.Type()) {
 					if cst.Value.String() == "true" {
 						bucket = sum.onTrue
@@ -525,6 +590,32 @@ func (la *lexAnalysis) run(fn *ssa.Function, entry lexStateSet, argDesc []string
 				add(b.Succs[1], f)
 				continue
 			}
+		}
+		if lastEnum != nil {
+			// the block ends right after a helper that returns an action code: pass its exit states on separately per
+			// code, tagged with the code, so that a later `switch action` lets through only the matching ones
+			hs := enumSums[lastEnum]
+			saved := curTag
+			var ks []string
+			for k := range hs.byConst {
+				ks = append(ks, k)
+			}
+			sort.Strings(ks)
+			for _, k := range ks {
+				m := parseTag(saved)
+				m[lastEnum.Name()] = k
+				curTag = fmtTag(m)
+				for _, sc := range b.Succs {
+					add(sc, hs.byConst[k])
+				}
+			}
+			curTag = saved
+			if len(hs.other) > 0 {
+				for _, sc := range b.Succs {
+					add(sc, hs.other)
+				}
+			}
+			continue
 		}
 		out := lexStateSet{}
 		for s := range expand(st, nil, nil) {
@@ -607,54 +698,325 @@ func AnalyzeLexer(fn *ssa.Function, cfg LexConfig) *LexResult {
 	return res
 }
 
-// NonProgressCycles finds loops of fn that can iterate without passing a consuming call
-// (a read, or the success edge of a match-like call).
-func NonProgressCycles(fn *ssa.Function, cfg LexConfig) []*ssa.BasicBlock {
-	// blocks that contain a read call are "progress" blocks; edges leaving an If on the success of a
-	// match-like call are progress edges.
-	progressBlock := map[*ssa.BasicBlock]bool{}
-	matchVals := map[ssa.Value]bool{}
-	for _, b := range fn.Blocks {
-		for _, ins := range b.Instrs {
-			if call, ok := ins.(ssa.CallInstruction); ok {
-				n := methodName(call.Common())
-				if n == cfg.Read {
-					progressBlock[b] = true
-				}
-				if contains(cfg.MatchLike, n) {
-					if v, ok := ins.(ssa.Value); ok {
-						matchVals[v] = true
-					}
-				}
-			}
-		}
+// progSummary says how a helper of the lexer can return without having consumed input.
+type progSummary struct {
+	noProg map[string]bool // constant first results that can be returned without progress
+	other  bool            // a non-constant first result (or no result) can be returned without progress
+}
+
+type progAnalysis struct {
+	cfg    LexConfig
+	memo   map[*ssa.Function]*progSummary
+	active map[*ssa.Function]bool
+	touch  map[*ssa.Function]int
+}
+
+// helper: an in-package function with a body that is not one of the lexer's primitives.
+func (pa *progAnalysis) helper(cc *ssa.CallCommon) *ssa.Function {
+	f := cc.StaticCallee()
+	cfg := pa.cfg
+	if f == nil || len(f.Blocks) == 0 || cfg.Read == nil || f.Pkg != cfg.Read.Pkg {
+		return nil
 	}
-	progressEdge := func(from *ssa.BasicBlock, k int) bool {
-		ifi, ok := from.Instrs[len(from.Instrs)-1].(*ssa.If)
-		if !ok {
-			return false
-		}
-		cond := ifi.Cond
-		neg := false
-		for {
-			if u, ok := cond.(*ssa.UnOp); ok && u.Op == token.NOT {
-				cond, neg = u.X, !neg
+	if f == cfg.Read || f == cfg.Peek || f == cfg.Unread || f == cfg.EOF || contains(cfg.MatchLike, f) {
+		return nil
+	}
+	return f
+}
+
+// touchesInput: f (transitively, through helpers) calls a primitive that looks at or consumes the input.
+func (pa *progAnalysis) touchesInput(f *ssa.Function) bool {
+	if v, ok := pa.touch[f]; ok {
+		return v == 1
+	}
+	pa.touch[f] = 0
+	res := false
+	for _, b := range f.Blocks {
+		for _, ins := range b.Instrs {
+			call, ok := ins.(ssa.CallInstruction)
+			if !ok {
 				continue
 			}
-			break
+			n := methodName(call.Common())
+			if n != nil && (n == pa.cfg.Peek || n == pa.cfg.EOF || n == pa.cfg.Read || contains(pa.cfg.MatchLike, n)) {
+				res = true
+			}
+			if h := pa.helper(call.Common()); h != nil && pa.touchesInput(h) {
+				res = true
+			}
 		}
-		is := matchVals[cond]
-		if ex, ok := cond.(*ssa.Extract); ok && ex.Index == 0 && matchVals[ex.Tuple] {
-			is = true
+	}
+	if res {
+		pa.touch[f] = 1
+	}
+	return res
+}
+
+func progEnvKey(env map[ssa.Value]string) string {
+	var ks []string
+	for v, k := range env {
+		ks = append(ks, v.Name()+"="+k)
+	}
+	sort.Strings(ks)
+	return strings.Join(ks, ",")
+}
+
+// isMatchResult: v is the (first) result of a match-like call.
+func (pa *progAnalysis) isMatchResult(v ssa.Value) bool {
+	if call, ok := v.(*ssa.Call); ok && contains(pa.cfg.MatchLike, methodName(&call.Call)) {
+		return true
+	}
+	if ex, ok := v.(*ssa.Extract); ok && ex.Index == 0 {
+		if call, ok := ex.Tuple.(*ssa.Call); ok && contains(pa.cfg.MatchLike, methodName(&call.Call)) {
+			return true
 		}
-		if !is {
+	}
+	return false
+}
+
+// search walks fn from start without passing a consuming call (a read, the success edge of a match-like call, a helper
+// on the paths where it consumes). It keeps the constant that a helper's result (and each phi merging such results) is
+// known to have, and follows a branch on such a value only on the matching side. It reports whether target is reached;
+// onRet is called for every return reached.
+func (pa *progAnalysis) search(fn *ssa.Function, start *ssa.BasicBlock, startEnv map[ssa.Value]string, target *ssa.BasicBlock, within func(*ssa.BasicBlock) bool, onRet func(*ssa.Return, map[ssa.Value]string)) bool {
+	seen := map[string]bool{}
+	var visit func(b *ssa.BasicBlock, env map[ssa.Value]string) bool
+	visit = func(b *ssa.BasicBlock, env map[ssa.Value]string) bool {
+		envs := []map[ssa.Value]string{env}
+		for _, ins := range b.Instrs {
+			call, ok := ins.(ssa.CallInstruction)
+			if !ok {
+				continue
+			}
+			if methodName(call.Common()) == pa.cfg.Read && pa.cfg.Read != nil {
+				return false
+			}
+			h := pa.helper(call.Common())
+			if h == nil {
+				continue
+			}
+			sum := pa.summary(h)
+			v, _ := ins.(ssa.Value)
+			var next []map[ssa.Value]string
+			for _, e := range envs {
+				var ks []string
+				for k := range sum.noProg {
+					ks = append(ks, k)
+				}
+				sort.Strings(ks)
+				for _, k := range ks {
+					ne := map[ssa.Value]string{}
+					for a, c := range e {
+						ne[a] = c
+					}
+					if v != nil {
+						ne[v] = k
+					}
+					next = append(next, ne)
+				}
+				if sum.other {
+					ne := map[ssa.Value]string{}
+					for a, c := range e {
+						ne[a] = c
+					}
+					if v != nil {
+						delete(ne, v)
+					}
+					next = append(next, ne)
+				}
+			}
+			envs = next
+			if len(envs) == 0 {
+				return false
+			}
+		}
+		last := b.Instrs[len(b.Instrs)-1]
+		if ret, ok := last.(*ssa.Return); ok {
+			if onRet != nil {
+				for _, e := range envs {
+					onRet(ret, e)
+				}
+			}
 			return false
 		}
-		if neg {
-			return k == 1
+		for _, e := range envs {
+			for k, sc := range b.Succs {
+				if ifi, ok := last.(*ssa.If); ok {
+					cond, neg := ifi.Cond, false
+					for {
+						if u, ok := cond.(*ssa.UnOp); ok && u.Op == token.NOT {
+							cond, neg = u.X, !neg
+							continue
+						}
+						break
+					}
+					if pa.isMatchResult(cond) && (k == 0) != neg {
+						continue // success edge of a match-like call: progress
+					}
+					if c, ok := e[cond]; ok && (c == "true" || c == "false") {
+						val := c == "true"
+						if neg {
+							val = !val
+						}
+						if (k == 0) != val {
+							continue
+						}
+					}
+					if bo, ok := cond.(*ssa.BinOp); ok && (bo.Op == token.EQL || bo.Op == token.NEQ) {
+						skip := false
+						for _, pair := range [][2]ssa.Value{{bo.X, bo.Y}, {bo.Y, bo.X}} {
+							cst, isC := pair[1].(*ssa.Const)
+							if !isC || cst.Value == nil {
+								continue
+							}
+							if c, ok := e[pair[0]]; ok {
+								val := c == cst.Value.String()
+								if bo.Op == token.NEQ {
+									val = !val
+								}
+								if neg {
+									val = !val
+								}
+								if (k == 0) != val {
+									skip = true
+								}
+							}
+						}
+						if skip {
+							continue
+						}
+					}
+				}
+				if within != nil && !within(sc) {
+					continue
+				}
+				// phi moves along the edge b -> sc
+				ne := map[ssa.Value]string{}
+				for a, c := range e {
+					ne[a] = c
+				}
+				pi := -1
+				for j, p := range sc.Preds {
+					if p == b {
+						pi = j
+					}
+				}
+				for _, ins := range sc.Instrs {
+					phi, ok := ins.(*ssa.Phi)
+					if !ok {
+						break
+					}
+					delete(ne, phi)
+					if pi >= 0 {
+						ev := phi.Edges[pi]
+						if cst, ok := ev.(*ssa.Const); ok && cst.Value != nil {
+							ne[phi] = cst.Value.String()
+						} else if c, ok := e[ev]; ok {
+							ne[phi] = c
+						}
+					}
+				}
+				if sc == target {
+					return true
+				}
+				key := fmt.Sprintf("%d|%s", sc.Index, progEnvKey(ne))
+				if seen[key] {
+					continue
+				}
+				seen[key] = true
+				if visit(sc, ne) {
+					return true
+				}
+			}
 		}
-		return k == 0
+		return false
 	}
+	return visit(start, startEnv)
+}
+
+// summary: which first results f can return without having consumed input.
+func (pa *progAnalysis) summary(f *ssa.Function) *progSummary {
+	if s, ok := pa.memo[f]; ok {
+		return s
+	}
+	if pa.active[f] {
+		return &progSummary{noProg: map[string]bool{}, other: true} // recursion: assume no progress
+	}
+	pa.active[f] = true
+	sum := &progSummary{noProg: map[string]bool{}}
+	pa.search(f, f.Blocks[0], map[ssa.Value]string{}, nil, nil, func(ret *ssa.Return, env map[ssa.Value]string) {
+		if len(ret.Results) == 0 {
+			sum.other = true
+			return
+		}
+		r := ret.Results[0]
+		switch {
+		case pa.isMatchResult(r):
+			sum.noProg["false"] = true // true means the delimiter was consumed
+		default:
+			if cst, ok := r.(*ssa.Const); ok && cst.Value != nil {
+				sum.noProg[cst.Value.String()] = true
+			} else if c, ok := env[r]; ok {
+				sum.noProg[c] = true
+			} else {
+				sum.other = true
+			}
+		}
+	})
+	delete(pa.active, f)
+	pa.memo[f] = sum
+	return sum
+}
+
+// boundedRangeLoop: h is the header of a `for range` over an array, slice or string length fixed before the loop
+// (index phi from -1, incremented by one, compared with a value computed outside the loop): it ends by itself.
+func boundedRangeLoop(h *ssa.BasicBlock) bool {
+	ifi, ok := h.Instrs[len(h.Instrs)-1].(*ssa.If)
+	if !ok {
+		return false
+	}
+	cmp, ok := ifi.Cond.(*ssa.BinOp)
+	if !ok || cmp.Op != token.LSS {
+		return false
+	}
+	inc, ok := cmp.X.(*ssa.BinOp)
+	if !ok || inc.Op != token.ADD || inc.Block() != h {
+		return false
+	}
+	phi, ok := inc.X.(*ssa.Phi)
+	if !ok || phi.Block() != h || len(phi.Edges) < 2 {
+		return false
+	}
+	if one, ok := inc.Y.(*ssa.Const); !ok || one.Value == nil || one.Value.String() != "1" {
+		return false
+	}
+	nInit, nInc := 0, 0
+	for _, e := range phi.Edges {
+		if cst, ok := e.(*ssa.Const); ok && cst.Value != nil && cst.Value.String() == "-1" {
+			nInit++
+		} else if e == ssa.Value(inc) {
+			nInc++
+		}
+	}
+	if nInit != 1 || nInc != len(phi.Edges)-1 {
+		return false
+	}
+	// the index is not written elsewhere (it is an SSA value); the bound is fixed before the loop
+	switch y := cmp.Y.(type) {
+	case *ssa.Const:
+		return true
+	case ssa.Instruction:
+		return y.Block() != h && y.Block().Dominates(h)
+	case *ssa.Parameter:
+		return true
+	}
+	return false
+}
+
+// NonProgressCycles finds loops of fn that can iterate without passing a consuming call
+// (a read, the success edge of a match-like call, or a helper on the paths where it consumes).
+func NonProgressCycles(fn *ssa.Function, cfg LexConfig) []*ssa.BasicBlock {
+	pa := &progAnalysis{cfg: cfg, memo: map[*ssa.Function]*progSummary{}, active: map[*ssa.Function]bool{}, touch: map[*ssa.Function]int{}}
 	var bad []*ssa.BasicBlock
 	for _, h := range fn.Blocks {
 		isHeader := false
@@ -663,11 +1025,11 @@ func NonProgressCycles(fn *ssa.Function, cfg LexConfig) []*ssa.BasicBlock {
 				isHeader = true
 			}
 		}
-		if !isHeader {
+		if !isHeader || boundedRangeLoop(h) {
 			continue
 		}
-		// only loops that look at the input (peek / eof / match-like / read) are lexing loops; a
-		// counting loop that only pushes runes back is not
+		// only loops that look at the input (peek / eof / match-like / read, directly or in a helper) are lexing
+		// loops; a counting loop that only pushes runes back is not
 		looks := false
 		for _, b := range fn.Blocks {
 			if !h.Dominates(b) {
@@ -685,7 +1047,10 @@ func NonProgressCycles(fn *ssa.Function, cfg LexConfig) []*ssa.BasicBlock {
 			for _, ins := range b.Instrs {
 				if call, ok := ins.(ssa.CallInstruction); ok {
 					n := methodName(call.Common())
-					if n == cfg.Peek || n == cfg.EOF || n == cfg.Read || contains(cfg.MatchLike, n) {
+					if n != nil && (n == cfg.Peek || n == cfg.EOF || n == cfg.Read || contains(cfg.MatchLike, n)) {
+						looks = true
+					}
+					if hf := pa.helper(call.Common()); hf != nil && pa.touchesInput(hf) {
 						looks = true
 					}
 				}
@@ -694,30 +1059,8 @@ func NonProgressCycles(fn *ssa.Function, cfg LexConfig) []*ssa.BasicBlock {
 		if !looks {
 			continue
 		}
-		// can h reach itself through non-progress blocks and edges?
-		seen := map[*ssa.BasicBlock]bool{}
-		var dfs func(b *ssa.BasicBlock) bool
-		dfs = func(b *ssa.BasicBlock) bool {
-			if progressBlock[b] {
-				return false
-			}
-			for k, s := range b.Succs {
-				if progressEdge(b, k) {
-					continue
-				}
-				if s == h {
-					return true
-				}
-				if !seen[s] && h.Dominates(s) {
-					seen[s] = true
-					if dfs(s) {
-						return true
-					}
-				}
-			}
-			return false
-		}
-		if dfs(h) {
+		// can h reach itself without progress?
+		if pa.search(fn, h, map[ssa.Value]string{}, h, func(b *ssa.BasicBlock) bool { return h.Dominates(b) }, nil) {
 			bad = append(bad, h)
 		}
 	}
@@ -819,7 +1162,7 @@ func CyclesWithoutEOFTest(fn *ssa.Function, cfg LexConfig) []*ssa.BasicBlock {
 				isHeader = true
 			}
 		}
-		if !isHeader {
+		if !isHeader || boundedRangeLoop(h) {
 			continue
 		}
 		// only loops that consume input
